@@ -21,7 +21,7 @@ def split_cases(lines):
     """lines: list of (cmd+obs dict, model dict|None). yields lists per case."""
     cur = []
     for ln in lines:
-        if ln[0].get("k") == "case" and cur:
+        if ln[0].get("k") in ("case", "scase") and cur:
             yield cur
             cur = []
         cur.append(ln)
@@ -29,7 +29,28 @@ def split_cases(lines):
         yield cur
 
 
+def _canon_store(st):
+    """store dumps: the operation id recorded in a stored snapshot's meta belongs to the server's
+    temporary replica (random client id): not compared; document lists are compared as sets"""
+    if not isinstance(st, dict) or "snapshots" not in st:
+        return st
+    st = dict(st)
+    st["snapshots"] = [{k: v for k, v in x.items() if k != "opid"} for x in st["snapshots"]]
+    def _ud(u):
+        v = u.get("value")
+        if isinstance(v, dict):
+            v = {({"Counter": "counter", "List": "list"}.get(k, k)): x for k, x in v.items()}
+        return dict(u, value=v)
+    st["userDocs"] = [_ud(u) for u in st.get("userDocs", [])]
+    for k in ("collections", "clients", "datatypes", "operations", "snapshots", "userDocs"):
+        if isinstance(st.get(k), list):
+            st[k] = sorted(st[k], key=canon)
+    return st
+
+
 def _sort_nodes(x):
+    if isinstance(x, dict) and "snapshots" in x and "operations" in x:
+        x = _canon_store(x)
     if isinstance(x, dict) and isinstance(x.get("nodes"), list):
         x = dict(x, nodes=sorted(x["nodes"], key=lambda n: canon(n.get("c")) if isinstance(n, dict) else ""))
     return x
@@ -64,8 +85,12 @@ def corr(case):
         if mo is None or mo.get("skip"):
             continue
         io = norm_obs(ln.get("obs", {}))
+        if ln.get("k") == "intent":
+            continue
         if io.get("hang"):
             return [dict(step=idx, what="hang", detail=ln)]
+        if io.get("crash"):
+            return [dict(step=idx, what="server-crash", detail=dict(cmd=strip(ln), msg=ln["obs"].get("panicMsg", "")[-600:]))]
         if "init" in mo:
             mo = dict(mo, init=[{a: b for a, b in x.items() if a not in ("spec", "specSize")} for x in mo["init"]])
         for k in CMP_KEYS:
@@ -108,6 +133,8 @@ def spec(case):
 def no_panic(case):
     for idx, (ln, mo) in enumerate(case):
         io = ln.get("obs", {})
+        if io.get("crash"):
+            return [dict(step=idx, what="server-crash", detail=dict(cmd=strip(ln), msg=io.get("panicMsg", "")[-600:]))]
         if io.get("panic") or io.get("hang"):
             return [dict(step=idx, what="panic" if io.get("panic") else "hang",
                          detail=dict(cmd=strip(ln), msg=io.get("panicMsg")))]
